@@ -21,6 +21,11 @@ type Arg struct {
 	Procs  int      `json:"procs"`
 	G      int      `json:"g"`
 	Inputs []string `json:"inputs"`
+	// Sequential: one goroutine walks all inputs once (Reverse: from the last to the first); the output has one
+	// "goroutine". Used with very many DISTINCT inputs: whatever a process memoises about earlier inputs must not
+	// change the answer for a later one, so two processes that see the inputs in opposite orders must agree.
+	Sequential bool `json:"sequential,omitempty"`
+	Reverse    bool `json:"reverse,omitempty"`
 }
 
 // Funcs: what is called per input, in this order; the output has one string per function.
@@ -73,6 +78,22 @@ func Main(argFile string) {
 	if err := json.Unmarshal(b, &a); err != nil {
 		panic(err)
 	}
+	if a.Sequential {
+		fns := Funcs[a.Kind]
+		res := make([][]string, len(a.Inputs))
+		for k := range a.Inputs {
+			i := k
+			if a.Reverse {
+				i = len(a.Inputs) - 1 - k
+			}
+			for _, fn := range fns {
+				res[i] = append(res[i], guard(fn.F, a.Inputs[i]))
+			}
+		}
+		ob, _ := json.Marshal([][][]string{res})
+		_ = os.WriteFile(argFile+".out", ob, 0o644)
+		return
+	}
 	runtime.GOMAXPROCS(a.Procs)
 	fns := Funcs[a.Kind]
 	out := make([][][]string, a.G)
@@ -117,8 +138,11 @@ type Child struct {
 // Run starts the stand-alone binary ($VERIF_FIRSTUSE, built with -race by the check driver) on the argument.
 func Run(scratch, tag string, a Arg) Child {
 	exe := os.Getenv("VERIF_FIRSTUSE")
+	if a.Sequential {
+		exe = os.Getenv("VERIF_FIRSTUSE_PLAIN") // no race detector: these runs are long and single-threaded
+	}
 	if exe == "" {
-		return Child{Err: "VERIF_FIRSTUSE is not set (the check driver builds the first-use binary)"}
+		return Child{Err: "VERIF_FIRSTUSE / VERIF_FIRSTUSE_PLAIN is not set (the check driver builds the first-use binaries)"}
 	}
 	argFile := scratch + "/firstuse-" + tag + ".json"
 	ib, _ := json.Marshal(a)
@@ -137,8 +161,49 @@ func Run(scratch, tag string, a Arg) Child {
 		c.Err = fmt.Sprintf("%v", err)
 		return c
 	}
-	if uerr := json.Unmarshal(tb, &c.Out); uerr != nil || len(c.Out) != a.G {
+	wantG := a.G
+	if a.Sequential {
+		wantG = 1
+	}
+	if uerr := json.Unmarshal(tb, &c.Out); uerr != nil || len(c.Out) != wantG {
 		c.Err = "output unreadable"
 	}
 	return c
+}
+
+// Diff: one input whose answer depends on the order in which a process saw the inputs.
+type Diff struct {
+	Input, Func, Forward, Reverse string
+}
+
+// ManyDistinct runs two fresh processes over the same DISTINCT inputs, one forwards and one backwards, and returns
+// the inputs on which they disagree (or that panicked).
+func ManyDistinct(scratch, tag, kind string, inputs []string) (diffs []Diff, problem string) {
+	var fw, bw Child
+	var wg sync.WaitGroup
+	wg.Add(2)
+	go func() {
+		defer wg.Done()
+		fw = Run(scratch, tag+"-fw", Arg{Kind: kind, Inputs: inputs, Sequential: true})
+	}()
+	go func() {
+		defer wg.Done()
+		bw = Run(scratch, tag+"-bw", Arg{Kind: kind, Inputs: inputs, Sequential: true, Reverse: true})
+	}()
+	wg.Wait()
+	for _, c := range []Child{fw, bw} {
+		if c.Crashed || c.Err != "" {
+			return nil, "child process failed: " + c.Err + " " + c.Log
+		}
+	}
+	fns := Funcs[kind]
+	for i, s := range inputs {
+		for k, fn := range fns {
+			a, b := fw.Out[0][i][k], bw.Out[0][i][k]
+			if a != b || strings.HasPrefix(a, "\x00PANIC") {
+				diffs = append(diffs, Diff{s, fn.Name, a, b})
+			}
+		}
+	}
+	return diffs, ""
 }
